@@ -22,6 +22,7 @@ def alphabet(tier):
             ops.append(("back", due, rev, ab))
     ops.append(("init",))
     ops.append(("reverse",))
+    ops.append(("simu", 2))  # simulate(unit_time=2): an option of simulate() like any other
     return ops
 
 
@@ -120,6 +121,9 @@ def apply_op(m, op, bad):
             _, due, rev, ab = op
             holder["aligned_before"] = True
             p.backward_simulate(max_time=BIG, considering_due_time_of_tail_tasks=due, reverse_log_information=rev, absence_time_list=list(ab))
+        elif kind == "simu":
+            holder["aligned_before"] = False  # the index-equals-step comparison is meaningless here; the alignment invariant after the call decides
+            p.simulate(max_time=BIG, unit_time=op[1], absence_time_list=[])
         elif kind == "init":
             p.initialize()
         elif kind == "reverse":
@@ -151,7 +155,7 @@ def replay_history(spec, hist):
             return m, viol, True
         al = check_alignment(m)
         if al is not None:
-            viol.append(("C08:logs-not-aligned-after:%s" % op[0], {"op": op, "k": k, "alignment": al}))
+            viol.append(("C08:logs-not-aligned-after:%s" % (op[0] if op[0] != "simu" else "simulate(unit_time=%d)" % op[1]), {"op": op, "k": k, "alignment": al}))
         if bad:
             names = sorted(set(b[1].split(" ")[0] + " " + b[1].split(" ")[-1] for b in bad))
             viol.append(("C08:log-entry-differs-from-live-state:%s" % ",".join(names)[:80], {"op": op, "k": k, "first": bad[:4]}))
@@ -174,8 +178,8 @@ def work(chunk):
             for sig, det in viol:
                 if det["k"] == len(hist) - 1:
                     col.violation({"property": "C08", "sig": sig, "kind": "hist", "spec": spec, "hist": [list(o) for o in hist], "detail": det})
-            if dead or any(det["k"] < len(hist) - 1 for _, det in viol):
-                continue
+            if dead or viol:
+                continue  # a violating history is reported once and not extended
             c = json.dumps(S.dump(m), sort_keys=True, default=str)
             hc = hash(c)
             if hc in seen:
